@@ -249,7 +249,13 @@ def r2(F, R):
     R.check(has_all and has_values and is_empty, "finished-needs-all-queues-empty", fin,
             "IS_FINISHED = … all(values, is_empty)", "IS_FINISHED does not test that *all* queues are empty (values().all(is_empty))")
     R.check(loads, "finished-needs-flag", fin, "IS_FINISHED reads the finished flag", "IS_FINISHED does not read the finished flag")
-    # path table: the result can be true only on paths where the flag was loaded as true
+    check_finished_requires_flag(F, R, "finished-only-after-parser-finished")
+    R.floor(9)
+
+
+def check_finished_requires_flag(F, R, inst):
+    """Path table of IS_FINISHED: the result can be true only on paths where the finished flag was loaded as true."""
+    aw_fin, fin = role_is_finished(F)
     paths = A.enumerate_paths(fin)
     bad = []
     for p in paths:
@@ -258,9 +264,9 @@ def r2(F, R):
             continue
         if flag != ["true"]:
             bad.append([(a[:40], o) for a, o in p.decisions])
-    R.check(bool(paths) and not bad, "finished-only-after-parser-finished", fin, "IS_FINISHED = finished && (…): true only when the finished flag is set",
-            f"IS_FINISHED can return true although the parser has not finished (path {bad[:1]}): the run ends and later features never run")
-    R.floor(9)
+    R.check(bool(paths) and not bad, inst, fin, "IS_FINISHED = finished && (…): true only when the finished flag is set",
+            f"IS_FINISHED can return true although the parser has not finished (path {bad[:1]}): run-Finished can be emitted while features / "
+            "ParsingFinished / parser errors are still to come")
 
 
 def _fn_values(b):
